@@ -1,0 +1,27 @@
+// SPDX-License-Identifier: MIT OR Apache-2.0
+
+//! Verification hook, only compiled with `--cfg p2panda_p2panda_verif`: counts the transactions
+//! committed through `SqliteStore` in this process and can end the process (`abort()`) right after
+//! the k-th one, which gives a crash-point enumeration its commit-granularity crash points.
+use std::sync::atomic::{AtomicU64, Ordering};
+
+static COMMITS: AtomicU64 = AtomicU64::new(0);
+static ABORT_AFTER: AtomicU64 = AtomicU64::new(0);
+
+/// Abort the process right after the `k`-th successful commit from now on (0: never).
+pub fn set_abort_after_commit(k: u64) {
+    COMMITS.store(0, Ordering::SeqCst);
+    ABORT_AFTER.store(k, Ordering::SeqCst);
+}
+
+/// Number of successful commits since the last `set_abort_after_commit` (or process start).
+pub fn commits() -> u64 {
+    COMMITS.load(Ordering::SeqCst)
+}
+
+pub(crate) fn after_commit() {
+    let n = COMMITS.fetch_add(1, Ordering::SeqCst) + 1;
+    if n == ABORT_AFTER.load(Ordering::SeqCst) {
+        std::process::abort();
+    }
+}
